@@ -35,6 +35,7 @@ func init() {
 			{Name: "maplit-error-dropped", File: "cl/expr.go", Old: "\terr = ctx.cb.MapLitEx(typ, n<<1, v)\n", New: "\tctx.cb.MapLitEx(typ, n<<1, v)\n", Expect: "result/compileMapLitEx"},
 			{Name: "typeswitch-dup-by-pointer", File: "cl/stmt.go", Old: "\t\t\tif !haserr {\n\t\t\t\tseen[T] = citem\n\t\t\t}", New: "\t\t\tif _, dup := seen[T]; !dup && !haserr {\n\t\t\t\tseen[T] = citem\n\t\t\t}", Expect: "type-identity/compileTypeSwitchStmt:seen"},
 			{Name: "blank-forin-two-blanks", File: "cl/stmt.go", Old: "\tif v.Key == nil && v.Value != nil && v.Value.Name == \"_\" {\n\t\tnames = nil // for _ <- x: nothing is defined (`for _, _ := range x` is not valid Go)\n\t}\n", New: "", Expect: "valid-go/for-blank"},
+			{Name: "main-lookup-before-gofiles", File: f, Old: "\tgopSyms := make(map[string]bool) // TODO: remove this map", New: "\t_, hasMainEarly := ctx.syms[\"main\"]\n\t_ = hasMainEarly\n\tgopSyms := make(map[string]bool) // TODO: remove this map", Expect: "result/NewPackage:main-after-preload"},
 			{Name: "errs-reset", File: f, Old: "\tfor _, load := range ctx.inits {\n\t\tload()\n\t}", New: "\tfor _, load := range ctx.inits {\n\t\tload()\n\t}\n\tif conf.Outline {\n\t\tctx.errs = nil\n\t}", Expect: "error-sink/errs-writers"},
 		},
 	})
@@ -517,6 +518,37 @@ func runC06(c *core.Check) {
 			}
 		}
 		c.Decide(ok, "result", "NewPackage", bad, "every return is preceded by err = ctx.complete() with no loader in between", "NewPackage returns on a path where its err result was not assigned from ctx.complete() after the last call that can record an error: failures recorded in pkgCtx.errs are not reported and the caller sees success")
+	}
+	// symbol-table queries come after every file was preloaded: NewPackage decides things from ctx.syms (is there a
+	// `main`? which names are XGo's?) — a query placed before the Go files (or the XGo files) are preloaded misses their
+	// declarations, and the compiler then emits what Go rejects (a second `func main`)
+	{
+		// the Go files are preloaded in a loop that may run zero times: require the lookup to come after that loop in source order
+		var lookupPos, goLoopEnd, gopLoopEnd token.Pos
+		ast.Inspect(np.Body, func(n ast.Node) bool {
+			if ix, ok := n.(*ast.IndexExpr); ok && nows(core.ExprStr(ix.X)) == "ctx.syms" {
+				if s2, ok := stringConst(info, ix.Index); ok && s2 == "main" {
+					if !lookupPos.IsValid() || ix.Pos() < lookupPos {
+						lookupPos = ix.Pos() // the earliest lookup decides
+					}
+				}
+			}
+			if rs, ok := n.(*ast.RangeStmt); ok {
+				ast.Inspect(rs.Body, func(m ast.Node) bool {
+					if call, ok := m.(*ast.CallExpr); ok {
+						if fn, ok := calleeObj(info, call).(*types.Func); ok && fn.Name() == "preloadFile" {
+							goLoopEnd = rs.End()
+						}
+						if fn, ok := calleeObj(info, call).(*types.Func); ok && fn.Name() == "preloadGopFile" {
+							gopLoopEnd = rs.End()
+						}
+					}
+					return true
+				})
+			}
+			return true
+		})
+		c.Decide(lookupPos.IsValid() && goLoopEnd.IsValid() && gopLoopEnd.IsValid() && lookupPos > goLoopEnd && lookupPos > gopLoopEnd, "result", "NewPackage:main-after-preload", lookupPos, "ctx.syms[\"main\"] is consulted after the XGo files and the Go files were preloaded", "NewPackage asks ctx.syms whether the package has a `main` before every file (XGo and Go) was preloaded: a `main` declared in a file preloaded later is not seen and a second, empty `func main` is generated — Go rejects the package although the compiler reported success")
 	}
 	// recovered path: err = ctx.errs.ToError() inside the recover closure
 	for _, s := range sites {
